@@ -169,7 +169,7 @@ def compare_step(rec, name, ref, x, P, extra=1.0, terms=None):
 
 class Linear(Sub):
     name = "linear"
-    n = {"quick": 1600, "thorough": 100000}
+    n = {"quick": 1600, "thorough": 60000}
 
     def strategy(self, tier):
         # run length: the stated range is 1..50; quick spends one case in 32 on runs of 26..50 steps (they cost ~5x an average case)
